@@ -24,7 +24,7 @@ def check(ctx):
     P = ctx.P
     expect_fn(ctx, "C16.1", "derives/all", "DerivesRegistry::add_derives_for_all", "{Extend::extend(P0.default_derives.derives,P1)}", "global derives: set extend", S)
     expect_fn(ctx, "C16.1", "attributes/all", "DerivesRegistry::add_attributes_for_all", "{Extend::extend(P0.default_derives.attributes,P1)}", "global attributes: set extend", S)
-    SEL = "if(P3){Entry::or_default(HashMap::entry(P0.recursive_type_derives,P1))}else{Entry::or_default(HashMap::entry(P0.specific_type_derives,P1))}"
+    SEL = "Entry::or_default(HashMap::entry(if(P3){P0.recursive_type_derives}else{P0.specific_type_derives},P1))"
     expect_fn(ctx, "C16.1", "derives/for", "DerivesRegistry::add_derives_for", "{Extend::extend(%s.derives,P2)}" % SEL,
               "recursive -> recursive map, else specific map; entry(ty).or_default(); derives extended", S)
     expect_fn(ctx, "C16.1", "attributes/for", "DerivesRegistry::add_attributes_for", "{Extend::extend(%s.attributes,P2)}" % SEL,
